@@ -413,6 +413,48 @@ func (e *Enc) callWrites(c *ssa.CallCommon, ws *writeSet, depth int, seen map[*s
 	e.funcWrites(callee, c, ws, depth, seen)
 }
 
+// bindFreeVars: what the enclosing function bound to the function-typed free variables of the
+// closure that owns fv (needed when the closure itself is the function being checked: the
+// MakeClosure in its parent was not met on the way).
+func (e *Enc) bindFreeVars(fv *ssa.FreeVar) {
+	if _, ok := e.fvFree[fv]; ok {
+		return
+	}
+	cl := fv.Parent()
+	if cl == nil || cl.Parent() == nil {
+		return
+	}
+	if e.fvFree == nil {
+		e.fvFree = map[*ssa.FreeVar]ssa.Value{}
+	}
+	n := 0
+	var found *ssa.MakeClosure
+	for _, b := range cl.Parent().Blocks {
+		for _, ins := range b.Instrs {
+			if mc, ok := ins.(*ssa.MakeClosure); ok && mc.Fn == cl {
+				n++
+				found = mc
+			}
+		}
+	}
+	if n != 1 {
+		return
+	}
+	for i, b := range found.Bindings {
+		if i < len(cl.FreeVars) {
+			bt := b.Type().Underlying()
+			if pt, ok := bt.(*types.Pointer); ok {
+				bt = pt.Elem().Underlying()
+			}
+			if _, ok := bt.(*types.Signature); ok {
+				if _, have := e.fvFree[cl.FreeVars[i]]; !have {
+					e.fvFree[cl.FreeVars[i]] = b
+				}
+			}
+		}
+	}
+}
+
 // resolveFV follows a function value to the function it denotes when that is known from the
 // syntactic context: a closure made here, a function reference, or a parameter of a function
 // whose caller (in the current write-set traversal) passed a known function.
@@ -442,6 +484,7 @@ func (e *Enc) resolveFV(v ssa.Value) *ssa.Function {
 			}
 			return f
 		case *ssa.FreeVar:
+			e.bindFreeVars(x)
 			b, ok := e.fvFree[x]
 			if !ok {
 				return nil
@@ -463,6 +506,7 @@ func (e *Enc) resolveFV(v ssa.Value) *ssa.Function {
 			}
 			cell := x.X
 			if fv, ok := cell.(*ssa.FreeVar); ok {
+				e.bindFreeVars(fv)
 				b, ok := e.fvFree[fv]
 				if !ok {
 					return nil
@@ -1321,8 +1365,9 @@ func (f *FnEnc) applyContract(spec *FuncSpec, sig *types.Signature, name string,
 	}
 	// results first: assigns clauses may mention them (e.g. a ghost attribute of the new object)
 	oldAlloc := f.st.Alloc
-	if spec.HasAssigns {
-		// the callee may allocate
+	if spec.HasAssigns || !spec.Pure {
+		// the callee may allocate (also when it has no assigns clause: its results are typed
+		// against the allocation counter, and fresh(result) must be satisfiable)
 		f.st = f.st.clone()
 		na := e.freshConst("alloc", SInt)
 		e.fact(tLe(f.st.Alloc, na))
@@ -1362,10 +1407,28 @@ func (f *FnEnc) applyContract(spec *FuncSpec, sig *types.Signature, name string,
 		if c.NoAssume {
 			continue
 		}
-		g := f.evalClauseSafe(ctx2, c)
+		// a postcondition that cannot be stated at this call site (it names a local of the callee,
+		// or uses a construct the encoder lacks here) is not assumed: less knowledge, never unsound
+		g, ok := f.evalClauseOpt(ctx2, c)
+		if !ok {
+			continue
+		}
 		f.assume(g)
 	}
 	return res
+}
+
+func (f *FnEnc) evalClauseOpt(ctx *SpecCtx, c *Clause) (g Term, ok bool) {
+	defer func() {
+		if r := recover(); r != nil {
+			if _, isU := r.(unsupported); isU {
+				g, ok = tTrue, false
+				return
+			}
+			panic(r)
+		}
+	}()
+	return ctx.evalBool(c.E), true
 }
 
 type assignTarget struct {
